@@ -7,6 +7,12 @@ package proxy
 //   TestVerifC04Trace  - seeded random configurations (lists of up to 7 servers, weight vectors that
 //                        validation accepts, discovery reports with mixed weights) and long request
 //                        sequences, same observation.
+//                        In both, pools may carry a retry policy (maxAttempts = cfg.att) and some requests
+//                        are answered with failures by the transport: such a request runs in its own
+//                        goroutine, every attempt that reaches the transport is recorded (`send`) and
+//                        waits there for the driver, which goes on with other events (replacements,
+//                        other requests) before it answers; a request that ends with 503 'no server'
+//                        without (further) sending is recorded as `nosrv`.
 //   TestVerifC04Conc   - G goroutines call ServerPool.LoadBalancer().ChooseServer concurrently with a
 //                        watcher goroutine calling useService; inv/ret events for the linearisation
 //                        search of LoadBalance_CTrace.
@@ -24,6 +30,7 @@ import (
 	"sync"
 	"sync/atomic"
 	"testing"
+	"time"
 	"unsafe"
 
 	"github.com/megaease/easegress/pkg/context"
@@ -31,6 +38,7 @@ import (
 	"github.com/megaease/easegress/pkg/logger"
 	"github.com/megaease/easegress/pkg/object/serviceregistry"
 	"github.com/megaease/easegress/pkg/protocols/httpprot"
+	"github.com/megaease/easegress/pkg/resilience"
 	"github.com/megaease/easegress/pkg/tracing"
 	vx "github.com/megaease/easegress/pkg/verifx"
 	"gopkg.in/yaml.v2"
@@ -62,10 +70,14 @@ type c04Config struct {
 	Policy string   `json:"policy"`
 	Static []c04Srv `json:"static"`
 	Disc   bool     `json:"disc"`
+	Att    int      `json:"att"` // maxAttempts of the pool's retry policy; 1: no retry policy
 }
 
 func c04ConfigOf(m vx.M) c04Config {
-	c := c04Config{Policy: vx.Str(m["policy"]), Disc: vx.Bool(m["disc"]), Static: []c04Srv{}}
+	c := c04Config{Policy: vx.Str(m["policy"]), Disc: vx.Bool(m["disc"]), Static: []c04Srv{}, Att: 1}
+	if a, ok := m["att"]; ok {
+		c.Att = vx.Int(a)
+	}
 	for _, s := range vx.List(m["static"]) {
 		sm := s.(vx.M)
 		c.Static = append(c.Static, c04Srv{ID: vx.Str(sm["id"]), W: vx.Int(sm["w"])})
@@ -111,6 +123,10 @@ func c04NewProxy(c c04Config) (*Proxy, error) {
 		pool["serviceName"] = "c04svc"
 		pool["serverTags"] = []interface{}{c04Tag}
 	}
+	if c.Att > 1 {
+		pool["retryPolicy"] = "c04retry"
+		pool["failureCodes"] = []interface{}{500}
+	}
 	raw := map[string]interface{}{"name": "c04", "kind": Kind, "pools": []interface{}{pool}}
 	// round trip through YAML so that the spec is exactly what a user would write
 	text, err := yaml.Marshal(raw)
@@ -127,6 +143,20 @@ func c04NewProxy(c c04Config) (*Proxy, error) {
 	}
 	p := kind.CreateInstance(spec).(*Proxy)
 	p.Init()
+	if c.Att > 1 {
+		// the real retry policy, injected the way the pipeline does; the back-off is as short as it gets
+		rp, err := resilience.NewPolicy(map[string]interface{}{"kind": "Retry", "name": "c04retry", "maxAttempts": c.Att,
+			"waitDuration": "200us", "backOffPolicy": "random", "randomizationFactor": 0.0})
+		if err != nil {
+			p.Close()
+			return nil, err
+		}
+		p.InjectResiliencePolicy(map[string]resilience.Policy{"c04retry": rp})
+		if p.mainPool.retryWrapper == nil {
+			p.Close()
+			return nil, fmt.Errorf("c04: retry policy not injected")
+		}
+	}
 	return p, nil
 }
 
@@ -212,6 +242,11 @@ type c04Transport struct {
 }
 
 func (tr *c04Transport) send(r *http.Request, _ *http.Client) (*http.Response, error) {
+	if id := r.Header.Get("X-C04-Req"); id != "" {
+		if v, ok := c04Flights.Load(id); ok {
+			return v.(*c04Flight).attempt(r)
+		}
+	}
 	tr.mu.Lock()
 	tr.hosts = append(tr.hosts, r.URL.Host)
 	tr.mu.Unlock()
@@ -251,6 +286,125 @@ func c04Handle(p *Proxy, tr *c04Transport, req *httpprot.Request) (obs string) {
 		return "nil"
 	}
 	return fmt.Sprintf("unexpected:sent=%d,result=%s,status=%d", len(hosts), result, status)
+}
+
+// c04Flight is a request whose attempts are answered by the driver: it runs through Proxy.Handle in a
+// goroutine of its own; every attempt that reaches the transport reports the target and then waits
+// for the driver's answer ("ok", "neterr": the transport returns an error, "fcode": a response with one
+// of the pool's failure codes).
+type c04Flight struct {
+	id      string
+	p, k    string
+	arrive  chan string
+	answer  chan string
+	fin     chan string
+	sent    int
+	waiting bool // an attempt is at the transport
+}
+
+var c04Flights sync.Map // id -> *c04Flight
+var c04FlightSeq int64
+
+func (f *c04Flight) attempt(r *http.Request) (*http.Response, error) {
+	f.arrive <- r.URL.Host
+	switch <-f.answer {
+	case "neterr":
+		return nil, fmt.Errorf("c04: scripted network error")
+	case "fcode":
+		return &http.Response{StatusCode: 500, Header: http.Header{}, Body: io.NopCloser(strings.NewReader("c04-failed"))}, nil
+	}
+	return &http.Response{StatusCode: 200, Header: http.Header{}, Body: io.NopCloser(strings.NewReader("c04"))}, nil
+}
+
+// c04Fly starts the request of caller pn with key k.
+func c04Fly(p *Proxy, keys *c04Keys, pn, k string) *c04Flight {
+	f := &c04Flight{id: fmt.Sprintf("f%d", atomic.AddInt64(&c04FlightSeq, 1)), p: pn, k: k,
+		arrive: make(chan string), answer: make(chan string), fin: make(chan string, 1)}
+	c04Flights.Store(f.id, f)
+	req := keys.request(k)
+	req.Std().Header.Set("X-C04-Req", f.id)
+	go func() {
+		obs := ""
+		defer func() {
+			if r := recover(); r != nil {
+				obs = "panic"
+			}
+			f.fin <- obs
+		}()
+		ctx := context.New(tracing.NoopSpan)
+		ctx.SetRequest(context.DefaultNamespace, req)
+		result := p.Handle(ctx)
+		status := 0
+		if resp, ok := ctx.GetOutputResponse().(*httpprot.Response); ok && resp != nil {
+			status = resp.StatusCode()
+		}
+		switch {
+		case result == "" && status == 200:
+			obs = "done:ok"
+		case result == resultInternalError && status == http.StatusServiceUnavailable:
+			obs = "nosrv" // doHandle's answer when the balancer gave it no server
+		case result == resultServerError && status == http.StatusServiceUnavailable, result == resultFailureCode && status == 500:
+			obs = "done:fail"
+		default:
+			obs = fmt.Sprintf("unexpected:result=%s,status=%d", result, status)
+		}
+	}()
+	return f
+}
+
+// step answers the attempt that is at the transport (if any) and waits for what the request does next:
+// another attempt reaches the transport, or Handle returns. It records that as one event; done is true
+// when the request is over. Nothing here depends on time: the driver blocks until the real code moves
+// (the guard only turns a hang into an observation).
+func (f *c04Flight) step(w *vx.Writer, answer string) (done bool) {
+	if f.waiting {
+		f.answer <- answer
+		f.waiting = false
+	}
+	select {
+	case host := <-f.arrive:
+		f.sent++
+		f.waiting = true
+		w.Emit(vx.M{"ev": "send", "p": f.p, "k": f.k, "r": c04ID(host), "i": f.sent, "after": answer})
+		return false
+	case obs := <-f.fin:
+		c04Flights.Delete(f.id)
+		switch {
+		case obs == "nosrv":
+			w.Emit(vx.M{"ev": "nosrv", "p": f.p, "k": f.k, "r": "nil", "i": f.sent, "after": answer})
+		case strings.HasPrefix(obs, "done:") && f.sent > 0:
+			w.Emit(vx.M{"ev": "done", "p": f.p, "o": strings.TrimPrefix(obs, "done:"), "i": f.sent, "after": answer})
+		default:
+			// a panic, or an answer that is neither a forwarding nor 503 'no server': no contract step
+			w.Emit(vx.M{"ev": "send", "p": f.p, "k": f.k, "r": obs, "i": f.sent + 1, "after": answer})
+		}
+		return true
+	case <-time.After(120 * time.Second):
+		c04Flights.Delete(f.id)
+		w.Emit(vx.M{"ev": "send", "p": f.p, "k": f.k, "r": "unexpected:hung", "i": f.sent + 1, "after": answer})
+		return true
+	}
+}
+
+// c04Land ends the requests still in flight (their pending attempts succeed).
+func c04Land(w *vx.Writer, flights map[string]*c04Flight) {
+	names := []string{}
+	for pn := range flights {
+		names = append(names, pn)
+	}
+	sort.Strings(names)
+	for _, pn := range names {
+		for i := 0; i < 64 && !flights[pn].step(w, "ok"); i++ {
+		}
+		delete(flights, pn)
+	}
+}
+
+func c04FailKind(rng interface{ Intn(int) int }) string {
+	if rng.Intn(2) == 0 {
+		return "neterr"
+	}
+	return "fcode"
 }
 
 func c04Choose(sp *ServerPool, req *httpprot.Request) (obs string) {
@@ -434,6 +588,7 @@ func TestVerifC04Replay(t *testing.T) {
 		keys := c04NewKeys(rng)
 		w.Emit(vx.M{"ev": "reset", "cfg": cfg, "beh": bi})
 		held := map[string]*c04Held{}
+		flights := map[string]*c04Flight{}
 		for _, st := range beh[1:] {
 			switch vx.Str(st["a"]) {
 			case "rep":
@@ -466,15 +621,49 @@ func TestVerifC04Replay(t *testing.T) {
 				for i := 0; i < c04Repeat(cfg.Policy); i++ {
 					w.Emit(vx.M{"ev": "ch", "k": k, "r": c04Handle(p, tr, keys.request(k))})
 				}
+			case "send", "nosrv":
+				// an attempt of a request is due (the first one, or the next one after the attempt at the
+				// backend is answered with a failure): what the real pool does with it is recorded
+				pn := vx.Str(st["p"])
+				f := flights[pn]
+				if f == nil {
+					if vx.Int(st["i"]) > 1 || (vx.Str(st["a"]) == "nosrv" && vx.Int(st["i"]) > 0) {
+						continue // the real request is over already (recorded): nothing to answer
+					}
+					f = c04Fly(p, keys, pn, vx.Str(st["k"]))
+					flights[pn] = f
+				}
+				answer := "neterr"
+				if cfg.Att > 1 {
+					answer = c04FailKind(rng)
+				}
+				if f.step(w, answer) {
+					delete(flights, pn)
+				}
+			case "done":
+				pn := vx.Str(st["p"])
+				if f := flights[pn]; f != nil {
+					answer := "ok"
+					if vx.Str(st["o"]) == "fail" {
+						answer = "neterr"
+						if cfg.Att > 1 {
+							answer = c04FailKind(rng)
+						}
+					}
+					if f.step(w, answer) {
+						delete(flights, pn)
+					}
+				}
 			}
 		}
+		c04Land(w, flights)
 		p.Close()
 	}
 }
 
 func c04RandConfig(rng interface{ Intn(int) int }) c04Config {
 	policies := []string{"roundRobin", "random", "weightedRandom", "ipHash", "headerHash", "any"}
-	c := c04Config{Policy: policies[rng.Intn(len(policies))], Static: []c04Srv{}, Disc: rng.Intn(3) > 0}
+	c := c04Config{Policy: policies[rng.Intn(len(policies))], Static: []c04Srv{}, Disc: rng.Intn(3) > 0, Att: 1}
 	n := rng.Intn(8)
 	if n == 0 && !c.Disc {
 		n = 1 + rng.Intn(7)
@@ -528,6 +717,13 @@ func TestVerifC04Trace(t *testing.T) {
 	nSteps := vx.EnvInt("VERIF_STEPS", 60)
 	for ti := 0; ti < nTraces; ti++ {
 		cfg := c04RandConfig(rng)
+		// two pools of three carry a retry policy: 2..4 attempts, or one more than the pool has servers
+		switch rng.Intn(6) {
+		case 0, 1:
+			cfg.Att = 2 + rng.Intn(3)
+		case 2, 3:
+			cfg.Att = len(cfg.Static) + 1 + rng.Intn(2)
+		}
 		p, err := c04NewProxy(cfg)
 		if err != nil {
 			w.Emit(vx.M{"ev": "rejected", "cfg": cfg, "err": err.Error()})
@@ -535,6 +731,32 @@ func TestVerifC04Trace(t *testing.T) {
 		}
 		keys := c04NewKeys(rng)
 		w.Emit(vx.M{"ev": "reset", "cfg": cfg})
+		// requests whose attempts the transport answers with failures (up to 4 in flight: g4..g7): the
+		// number of failing attempts of each is drawn when it starts - often all the pool's attempts
+		flights := map[string]*c04Flight{}
+		fails := map[string]int{}
+		fly := func(k string) {
+			pn := fmt.Sprintf("g%d", 4+rng.Intn(4))
+			f := flights[pn]
+			if f == nil {
+				f = c04Fly(p, keys, pn, k)
+				flights[pn] = f
+				fails[pn] = rng.Intn(cfg.Att + 1)
+				if rng.Intn(3) == 0 {
+					fails[pn] = cfg.Att
+				}
+			}
+			answer := "ok"
+			if f.sent > 0 && fails[pn] >= f.sent {
+				answer = "neterr"
+				if cfg.Att > 1 {
+					answer = c04FailKind(rng)
+				}
+			}
+			if f.step(w, answer) {
+				delete(flights, pn)
+			}
+		}
 		// a round robin balancer that has served k0 = 2^b - d selections before (2 of 3 generations)
 		age := func() {
 			if cfg.Policy != "roundRobin" || rng.Intn(3) == 0 {
@@ -564,6 +786,10 @@ func TestVerifC04Trace(t *testing.T) {
 				continue
 			}
 			k := fmt.Sprintf("k%d", rng.Intn(4))
+			if rng.Intn(4) == 0 {
+				fly(k)
+				continue
+			}
 			// requests held between the load of the balancer and the choice (up to 4 at a time)
 			if pn := fmt.Sprintf("g%d", rng.Intn(4)); rng.Intn(6) == 0 {
 				if h := held[pn]; h != nil {
@@ -582,6 +808,7 @@ func TestVerifC04Trace(t *testing.T) {
 				w.Emit(vx.M{"ev": "hpick", "p": fmt.Sprintf("g%d", g), "r": h.choose()})
 			}
 		}
+		c04Land(w, flights)
 		p.Close()
 	}
 }
